@@ -184,7 +184,7 @@ Proof.
   destruct (find_by_pid s pid) as [k|] eqn:F; auto.
   destruct (get s k) as [j|] eqn:G; auto.
   set (j' := mkJob (jpid j) st None
-               (jchanged j || negb (option_eqb pstate_eqb (jexpected j) (Some st))) (jowned j)).
+               (jchanged j || negb (option_eqb pstate_eqb (jexpected j) (Some st))) (jowned j) (jname j)).
   destruct (Bool.bool_dec (suspended j) (is_stopped st)) as [Same|Diff].
   { (* suspension unchanged: the table looks the same *)
     assert (I1 : Inv (mkJL (set_slot (slots s) k (Some j')) (free s) (pidx s) (cur s) (prev s)))
